@@ -240,6 +240,29 @@ fn check_tables(ev: &mut Ev, mutated: &[String]) -> CaseResult {
     Ok(())
 }
 
+/// Dictionary prefixes / suffixes / respellings around the 14 real names:
+/// none of them is a '+' file, so none may map to an entry.
+fn check_decorated(ev: &mut Ev, names: &[String]) -> CaseResult {
+    for s in names {
+        ev.eval();
+        if META_FILES.contains(&s.as_str()) {
+            continue;
+        }
+        match MetadataEntry::from_filename(s) {
+            None => ev.count("table/decorated_rejected"),
+            Some(g) => {
+                return Err(format!(
+                    "from_filename({s:?}) is Some({g:?}) whose to_filename() is {:?}: two strings map to one entry, the conversion is not a bijection over the 14 names",
+                    g.to_filename()
+                )
+                .into())
+            }
+        }
+    }
+    ev.nontrivial(hash_bytes(names.concat().as_bytes()));
+    Ok(())
+}
+
 struct ValidCase {
     /// Text per mandatory entry; `None` = read_metadata is not called at all.
     texts: [Option<String>; 3],
@@ -297,6 +320,7 @@ pub fn run(cx: &mut Cx) {
         "metadata/read_absent",
         "table/rows",
         "table/near_miss_rejected",
+        "table/decorated_rejected",
     ] {
         cx.ev.require(k);
     }
@@ -379,6 +403,19 @@ pub fn run(cx: &mut Cx) {
         || format!("metadata table both ways, {} near-miss and {} mutated names", gm::NEAR_MISS.len(), mutated.len()),
         |ev| check_tables(ev, &mutated),
     );
+
+    // (c2) the 14 names with dictionary prefixes / suffixes / respellings;
+    // one case per real name so that a witness names its row
+    for (i, f) in META_FILES.iter().enumerate() {
+        if !cx.mine(i as u64) {
+            continue;
+        }
+        let mine = gm::decorated_names(f);
+        cx.check(
+            || format!("{} decorated spellings of {f} (prefixes ./ / ../ dir/ blank BOM +, suffixes .gz / .orig ~ blank newline, case, '_')", mine.len()),
+            |ev| check_decorated(ev, &mine),
+        );
+    }
 
     // (d) Metadata::is_valid over all 8 empty/non-empty combinations
     let reps = cx.per_shard(16, 160, 1_600, 16_000);
